@@ -447,7 +447,25 @@ def run(ctx):
                 r3.ok("no-break", "loops end only by iterator exhaustion")
             else:
                 r3.violation("no-break", "a loop over split points / base candidates can be left early (break / return)", site_of(b, bad_exit))
-    r3.floor(3, "push, no-skip, no-break")
+    # the memo holds direct candidates only: nothing produced by a suffix join is ever inserted into it
+    ins = []
+    for k in reach:
+        kb = prog.body(k)
+        for (bb, t) in kb.calls():
+            if callee_name(t).endswith("HashMap::<K, V, S, A>::insert") and phonetic.MEMO_TY in t["args"][0]["place"]["ty"]:
+                ins.append((k, bb, t))
+    if len(ins) != 1:
+        r3.violation("memo-direct", "the memo is filled at %d places; base candidates must be the direct (auto-correct / dictionary) candidates stored by the single fill" % len(ins),
+                     common.fn_line(prog, ins[0][0]) if ins else None)
+    else:
+        k, bb, t = ins[0]
+        kb = prog.body(k)
+        val = kb.expr_operand(t["args"][2])
+        if contains_call(val, lambda n: n in sib):
+            r3.violation("memo-direct", "suffix-joined candidates are stored in the memo: a later suffix is stacked on an already suffixed candidate", site_of(kb, bb))
+        else:
+            r3.ok("memo-direct", "the memo entry is built without the suffix join")
+    r3.floor(4, "push, no-skip, no-break, memo-direct")
 
     # ---------------- R4 data tables and classes
     dic = tables.load_json("dictionary.json")
